@@ -338,8 +338,20 @@ def run_scenario(sc):
             elif name == "rsv1-continuation":
                 raw = ws.build_frame(1, b"ab", fin=0, rsv=0, mask=mask) + ws.build_frame(0, b"cd", fin=1, rsv=4, mask=mask)
             elif name == "rsv1-continuation-of-compressed":
-                c = zlib.compressobj(6, zlib.DEFLATED, -9)
-                z = (c.compress(b"abcdabcd") + c.flush(zlib.Z_SYNC_FLUSH))[:-4]
+                # valid compressed data of the NEGOTIATED codec, so that only the RSV1 bit on the continuation is wrong
+                kind = type(ep.proto._perMessageCompress).__name__
+                if kind == "PerMessageBzip2":
+                    import bz2
+                    z = bz2.compress(b"abcdabcd")
+                elif kind == "PerMessageBrotli":
+                    import brotli
+                    z = brotli.compress(b"abcdabcd")
+                elif kind == "PerMessageSnappy":
+                    import snappy
+                    z = snappy.StreamCompressor().add_chunk(b"abcdabcd")
+                else:
+                    c = zlib.compressobj(6, zlib.DEFLATED, -9)
+                    z = (c.compress(b"abcdabcd") + c.flush(zlib.Z_SYNC_FLUSH))[:-4]
                 raw = ws.build_frame(1, z[:2], fin=0, rsv=4, mask=mask) + ws.build_frame(0, z[2:], fin=1, rsv=4, mask=mask)
             elif name == "rsv2-data":
                 raw = ws.build_frame(1, b"ab", rsv=2, mask=mask)
